@@ -46,6 +46,37 @@ def builder(seed, n, defaults, tag):
     return cases, metas
 
 
+def late_kink_builder(seed, n, defaults, tag):
+    """a forcing that switches on shortly before xend after a long quiet stretch: the attempt that reaches for xend
+    straddles the kink and is rejected, shorter steps follow -- the landing / `last` logic of every method after a
+    rejected final attempt (seeded change C06-d kept a stale 'last step' flag in BDF); sol(t_i) is compared with every
+    stored sample by the harness (selfsol)"""
+    from .gen import C, Y, T, add, sub, mul, neg, iflt
+    rng = random.Random(seed)
+    cases, metas = [], {}
+    k = 0
+    for method in sweep.available_methods():
+        for rep in range(max(2, n // 12)):
+            span = rng.choice([5.0, 20.0, 40.0])
+            d = 1.0 if rng.random() < 0.7 else -1.0
+            frac = rng.choice([0.005, 0.02, 0.05, 0.1])
+            kink = span * (1.0 - frac)
+            K = rng.choice([10.0, 1000.0])
+            a = rng.choice([1.0, 3.0])
+            # forward: y' = -a y + K max(t - kink, 0); backward: the mirrored problem
+            tt = T if d > 0 else neg(T)
+            rhs = add(mul(C(-a), Y(0)), iflt(tt, C(kink), C(0.0), mul(C(K), sub(tt, C(kink)))))
+            prob = {"name": "late_kink", "y0": [1.0], "f": [rhs if d > 0 else neg(rhs)], "span": span}
+            rt = 10 ** rng.uniform(-8, -3)
+            kw = dict(method=method, prob=prob, x0=0.0, xend=d * span, rtol=rt, atol=rt * 1e-3, defaults=defaults, dense=True,
+                      query=[0.0, d * span, d * span * 0.5, d * kink])
+            cid = "%s%d" % (tag, k)
+            k += 1
+            cases.append(gen.solve_case(cid, **kw))
+            metas[cid] = ({"family": "late_kink", "n": 1, "backward": d < 0, "tolmode": "mixed", "method": method, "joints": []}, kw)
+    return cases, metas
+
+
 def oracle(meta, kw, r):
     out = []
     st = r.get("status")
@@ -116,9 +147,10 @@ def oracle(meta, kw, r):
 def check():
     return solvercheck.run(
         "C06", "C06.v" if os.path.exists(os.path.join(solvercheck.common.COQ, "props", "C06.v")) else None,
-        [dict(builder=builder, n_quick=260, n_thorough=4000)],
+        [dict(builder=builder, n_quick=260, n_thorough=4000),
+         dict(builder=late_kink_builder, n_quick=60, n_thorough=600)],
         [oracle, oracles.oracle_shapes], TB,
         "two-pass: a plain run reveals the accepted-step grid; the second run (dense_output on, optionally events / step budget) "
         "queries sol at stored sample times, one ulp either side of interior step boundaries, and clearly outside the span; "
         "sol(t_i) must reproduce y_i, must not jump across boundaries, must fail outside, NotEnabled when disabled; sol_many over the same times in the given and the reversed order must agree with sol; plus the "
-        "zero-length run for every method; all runs replayed bit-for-bit on the model (incl. every sol value); 6 methods, both directions")
+        "zero-length run for every method; plus runs whose forcing switches on shortly before xend (the final attempt is rejected); all runs replayed bit-for-bit on the model (incl. every sol value); 6 methods, both directions")
